@@ -29,3 +29,8 @@ claim("C18", "provenance and dominance rules over emitDSN / tryDelivery / toSMTP
       "Decides the structural clauses of the failure-report property: reported address = original-recipient-map entry of the failed recipient (fallback only on a miss); the report loop ranges over exactly the failed list; status/diagnostic come from the stored last error; bounce envelope = null return path → the failed message's sender, report metadata without original sender; a null-sender test dominates the bounce Start (loop freedom); the original header reaches the generator; a stored status can never be the unset 0.x.x. MIME well-formedness is not decided.",
       "trusts go/types, go/cfg", "DESIGN.md §3 C18")
 PENDING.pop("C18", None)
+
+claim("C12", "channel-discipline, lockset and single-call-site rules over the scheduler (type-checked AST + go/cfg lockset queries)",
+      "Decides the structural footprint of the scheduler property: sends on a channel that is closed somewhere share a mutex with the close (or no such close exists); request/acknowledge channels are unbuffered; one dispatch call site, on the timer branch, after removal of that very entry under the lock; one scheduler goroutine; every slot-list access holds the mutex; Add inserts before notifying; the synchronous part of the queue's dispatch callback cannot block; Close stops the wheel before waiting; the panic handler only renames. The interleaving space is not explored.",
+      "trusts go/types, go/cfg; a race without one of these structural footprints is invisible to this check", "DESIGN.md §3 C12")
+PENDING.pop("C12", None)
